@@ -320,6 +320,10 @@ def impl_run(case):
         sys.stdout.write("OUT-%s%s" % (tag, end))
         sys.stderr.write("ERR-%s%s" % (tag, end))
         logging.getLogger("verif").error("LOG-%s", tag)
+        if tag.startswith("step") and tag[4:].isdigit() and int(tag[4:]) % 5 == 1:
+            # a chatty step: more records than a buffering handler holds by default
+            for i in range(1001):
+                logging.getLogger("verif").error("fill %d", i)
 
     def mk(kind):
         def impl(context, n):
